@@ -109,7 +109,8 @@ func (s *Server) referrerGet(repoStr, arg string) http.HandlerFunc {
 		}
 		// check page cache for digest, two users requesting same referrer list
 		if cacheResp, err := s.referrerCache.Get(referrerKey{repo: repoStr, dig: d.Digest, artifactType: filterAT}); err == nil {
-			if page >= len(cacheResp) {
+			// only use the page counter if the digest matches, the response may have changed since the first page
+			if page >= len(cacheResp) || (page > 0 && cacheDig != d.Digest.String()) {
 				page = 0
 			}
 			if page+1 < len(cacheResp) {
